@@ -30,9 +30,14 @@ def main():
         for g in sorted(byg):
             findings.append({"id": "KF-%s-%s" % (prop, g), "property": prop, "group": g, "text": TEXT.get(g, g) + " [error envelope per (scalar, event, item, 3-octave bucket of theta, of pi-theta) measured on the pinned tree, margin x%d]" % MARGIN,
                              "envelope": byg[g]})
+    for g, why in (("SE2", "SE2::inverse rebuilds the rotation from the angle (atan2, cos, sin), so X^-1*X carries a translation residual ~ u*|t| that exceeds eps once |t| >~ 1e2"),
+                   ("SGal3", "X^-1*X of SGal3 cancels terms of size |time*velocity| and |translation|, leaving a residual ~ u*(|t| + |s*v|) that exceeds eps once coordinates are >~ 1e2")):
+        findings.append({"id": "KF-C18-%s" % g, "property": "C18", "group": g, "event": "isapprox",
+                         "item": ["reflexive", "reflexive_eq", "twin", "symmetric"], "lin_log2": [6, 99],
+                         "text": "X == X, X.isApprox(X, eps), X vs its coefficient-negated twin and symmetry can fail for %s elements with coordinates >= 1e2: %s; isApprox compares log(Y^-1 X) component-wise with an ABSOLUTE eps (repair = a scale-aware comparison, a semantic change, not small and safe)" % (g, why)})
     doc = {"comment": "Genuine defects of artivis/manif recorded rather than repaired (the repair would be a multi-site numerical rework of the closed forms, see DESIGN.md 2.8), and defects repaired by fix: commits. Read by tools/vlib.py; never written at run time. A finding covers an out-of-tolerance result only inside its input predicate (group, scalar, event, item, theta bucket, pi-theta bucket) and only up to the recorded bound (ratio error/tolerance in thousandths); anything else is reported as a VIOLATION.",
            "findings": findings,
            "fixed": ["fixed: property=%s %s %s" % f for f in FIXED]}
     json.dump(doc, open("/verif/known_findings.json", "w"), indent=0)
-    print(len(findings), "findings,", sum(len(f["envelope"]) for f in findings), "envelope buckets")
+    print(len(findings), "findings,", sum(len(f.get("envelope", {})) for f in findings), "envelope buckets")
 main()
